@@ -16,22 +16,28 @@ Range(seq) == {seq[i] : i \in DOMAIN seq}
 
 \* regex id -> pattern (concretised by the harness from this very table)
 Regexes == [r1 |-> "^a(b)?(c)(é+)$", r2 |-> "^a.*$", r3 |-> "^(?P<x>\\w+) (?P<y>\\d+)$",
-            r4 |-> "^((a)|(b))c$", r5 |-> "^ü(.)$"]
+            r4 |-> "^((a)|(b))c$", r5 |-> "^ü(.)$",
+            r6 |-> "(\\d+) cucumbers?"]          \* not anchored: the whole match is a part of the text
 Texts == [t1 |-> "acéé", t2 |-> "abcé", t3 |-> "foo 12", t4 |-> "ac", t5 |-> "bc",
-          t6 |-> "üx", t7 |-> "zzz"]
+          t6 |-> "üx", t7 |-> "zzz", t8 |-> "there are 12 cucumbers here", t9 |-> "7 cucumber"]
 
 G(name, val) == [name |-> name, val |-> val]
 \* <<regex, text>> -> capture groups after the whole match
 Caps == [p \in {<<"r1", "t1">>, <<"r1", "t2">>, <<"r2", "t1">>, <<"r2", "t2">>, <<"r2", "t4">>,
-                <<"r3", "t3">>, <<"r4", "t4">>, <<"r4", "t5">>, <<"r5", "t6">>} |->
+                <<"r3", "t3">>, <<"r4", "t4">>, <<"r4", "t5">>, <<"r5", "t6">>,
+                <<"r6", "t8">>, <<"r6", "t9">>} |->
   CASE p = <<"r1", "t1">> -> <<G("", ""), G("", "c"), G("", "éé")>>
     [] p = <<"r1", "t2">> -> <<G("", "b"), G("", "c"), G("", "é")>>
     [] p = <<"r3", "t3">> -> <<G("x", "foo"), G("y", "12")>>
     [] p = <<"r4", "t4">> -> <<G("", "a"), G("", "a"), G("", "")>>
     [] p = <<"r4", "t5">> -> <<G("", "b"), G("", ""), G("", "b")>>
     [] p = <<"r5", "t6">> -> <<G("", "x")>>
+    [] p = <<"r6", "t8">> -> <<G("", "12")>>
+    [] p = <<"r6", "t9">> -> <<G("", "7")>>
     [] OTHER -> <<>>]
 Matches(r, t) == <<r, t>> \in DOMAIN Caps
+\* the whole match (group 0): the text itself for the anchored regexes
+Whole(r, t) == IF <<r, t>> = <<"r6", "t8">> THEN "12 cucumbers" ELSE Texts[t]
 
 Keywords == {"Given", "When", "Then"}
 \* a definition: [kw, re, loc] ; loc 0 = None, else a line number
@@ -43,7 +49,7 @@ Find(defs, kw, t) ==
   IF cands = {} THEN [res |-> "none", cands |-> {}, re |-> "", loc |-> 0, whole |-> "", groups |-> <<>>]
   ELSE IF Cardinality(cands) = 1
   THEN LET d == CHOOSE x \in cands : TRUE IN
-       [res |-> "one", cands |-> {}, re |-> d.re, loc |-> d.loc, whole |-> Texts[t],
+       [res |-> "one", cands |-> {}, re |-> d.re, loc |-> d.loc, whole |-> Whole(d.re, t),
         groups |-> Caps[<<d.re, t>>]]
   ELSE [res |-> "ambiguous", cands |-> {[re |-> d.re, loc |-> d.loc] : d \in cands},
         re |-> "", loc |-> 0, whole |-> "", groups |-> <<>>]
@@ -51,5 +57,5 @@ Find(defs, kw, t) ==
 \* pool of definitions the registration sequences are drawn from
 Pool == {Def("Given", "r1", 0), Def("Given", "r2", 1), Def("Given", "r2", 2), Def("When", "r2", 1),
          Def("Given", "r3", 0), Def("Then", "r4", 3), Def("Then", "r2", 0), Def("Given", "r5", 1),
-         Def("When", "r1", 2)}
+         Def("When", "r1", 2), Def("Given", "r6", 4), Def("Then", "r6", 0)}
 =============================================================================
